@@ -41,3 +41,44 @@ Definition chk (c : Z * list (bytes * bytes * Z * Z * list bytes) * list (bytes 
   (if kind =? 0
    then existsb (fun k => matches (crash_state plan k st) obs) (seq 0 (S (List.length (all_ops plan))))
    else matches (exec (all_ops plan) st) obs).
+
+(* ---------------------------------------------------------------- trace acceptor: the file-system calls the real mlr -I issued
+   on the scratch files, in order (recorded by the ptrace supervisor and projected by the driver: calls that failed
+   and changed nothing are dropped except stat/close, reads of the input and os.Rename's own lstat are dropped),
+   must be exactly the model's op sequence (complete runs) or a prefix of it (killed runs).
+   event = (code, path, path2, number): 0 stat p | 1 create p mode | 2 write p nbytes | 3 close p | 4 rename p p2 |
+   5 chmod p mode | 6 unlink p *)
+Definition tev := (Z * bytes * bytes * Z)%type.
+
+Definition erase (o : op) : tev :=
+  match o with
+  | OStat f => (0, f, [], 0)
+  | OCreate t => (1, t, [], Z.of_N temp_mode)
+  | OAppend t ch => (2, t, [], Z.of_nat (List.length ch))
+  | OClose t => (3, t, [], 0)
+  | ORename t f => (4, t, f, 0)
+  | OChmod f m => (5, f, [], Z.of_N m)
+  | ORemove t => (6, t, [], 0)
+  end.
+
+Definition tev_eqb (a b : tev) : bool :=
+  let '(c1, p1, q1, n1) := a in let '(c2, p2, q2, n2) := b in
+  (c1 =? c2) && beqb p1 p2 && beqb q1 q2 && (n1 =? n2).
+
+Fixpoint tevs_match (exact : bool) (tr model : list tev) : bool :=
+  match tr, model with
+  | [], [] => true
+  | [], _ :: _ => negb exact                  (* killed: the trace may stop anywhere *)
+  | a :: tr', b :: model' => tev_eqb a b && tevs_match exact tr' model'
+  | _ :: _, [] => false
+  end.
+
+(* chunks are given by their lengths (the write sizes seen in the trace): only lengths are compared *)
+Definition entry_of_lens (e : bytes * bytes * Z * Z * list Z) : entry :=
+  let '(f, tmp, m, code, lens) := e in
+  (f, tmp, Z.to_N m, oc_of code (map (fun n => repeat "x"%char (Z.to_nat n)) lens)).
+
+(* case = (kind (1 = returned, 0 = killed), plan with chunk lengths, projected trace) *)
+Definition chk_trace (c : Z * list (bytes * bytes * Z * Z * list Z) * list tev) : bool :=
+  let '(kind, plan0, tr) := c in
+  tevs_match (kind =? 1) tr (map erase (all_ops (map entry_of_lens plan0))).
